@@ -32,6 +32,9 @@ pub struct Spec {
     pub two_snapshots: bool,
     pub plan: ReadPlan,
     pub restore: bool,
+    /// back up a real directory on tmpfs through LocalSource (free mode only) instead of SimSource
+    #[serde(default)]
+    pub local_source: bool,
     pub start_s: i64,
 }
 
@@ -125,6 +128,7 @@ impl Prop for C01 {
             two_snapshots: rng.chance(1, 3),
             plan,
             restore: rng.chance(1, 4),
+            local_source: !sched && rng.chance(1, 3),
             start_s: common::BASE_TIME_S + rng.range(0, 400 * 86400) as i64,
         };
         serde_json::to_value(spec).unwrap()
@@ -161,6 +165,11 @@ impl Prop for C01 {
         if s.restore {
             let mut c = s.clone();
             c.restore = false;
+            push(&mut out, c);
+        }
+        if s.local_source {
+            let mut c = s.clone();
+            c.local_source = false;
             push(&mut out, c);
         }
         out
@@ -210,10 +219,32 @@ impl Prop for C01 {
                 Mode::Free
             };
             let (model2, sched2, plan2, seed2) = (model.clone(), sched.clone(), s.plan.clone(), s.subseed);
+            let src_dir = if s.local_source {
+                let d = crate::restore_check::fresh_dir(&env.tmp, "c01-src");
+                if let Err(e) = crate::restore_check::materialize(model, &d) {
+                    rep.harness_errors.push(format!("cannot materialise the source on tmpfs: {e}"));
+                    return rep;
+                }
+                rep.fire("real_directory_source(LocalSource)", 1);
+                Some(d)
+            } else {
+                None
+            };
+            let src_dir2 = src_dir.clone();
             let out = run_cmd(&sched, &mode, &mut rng, &env.cpus, move || {
-                let r = backup_model(&repo, &model2, &sched2, 1, &plan2, seed2, &BackupOptions::default(), "c01");
+                let r = match &src_dir2 {
+                    None => backup_model(&repo, &model2, &sched2, 1, &plan2, seed2, &BackupOptions::default(), "c01"),
+                    Some(d) => crate::world::snap_template("c01").and_then(|t| {
+                        repo.backup(&BackupOptions::default().as_path(std::path::PathBuf::from("/")), &rustic_core::PathList::from_iter([d.clone()]), t)
+                            .map(|snap| crate::world::BackupResult { snap, source_log: Default::default() })
+                    }),
+                };
                 (repo, r)
             });
+            if let Some(d) = &src_dir {
+                crate::restore_check::make_removable(d);
+                let _ = std::fs::remove_dir_all(d);
+            }
             *rep.policies.entry(out.policy.to_string()).or_insert(0) += 1;
             rep.gates += out.trace.len() as u64;
             rep.sim_ns += out.sim_ns;
@@ -275,7 +306,7 @@ impl Prop for C01 {
             }
         };
         for (snap, model) in snaps.iter().zip(models.iter()) {
-            let rb = read_back(&ro, snap, model, &ReadBackOpts::default(), &mut rng);
+            let rb = read_back(&ro, snap, model, &ReadBackOpts { inode: !s.local_source, mode_mask: if s.local_source { 0o777 } else { u32::MAX }, ..ReadBackOpts::default() }, &mut rng);
             if !rb.is_equal() {
                 rep.violation(format!("C01/readback:{}", classify(&rb.short())), rb.short());
             }
